@@ -18,13 +18,13 @@ RULE = ('all connected graphs with <= 6 nodes (NetworkX graph atlas) x every cho
         'tell a writer fault from a reader fault. distinct = (graph id or size class, distinguished-edge role, order); '
         'non-trivial = at least one non-single bond.')
 ASSUMPTIONS = ['node keys are mutually comparable (the writer starts at min(graph))',
-               'node names: alphanumeric, also starting with a digit, plus names with + - \' as they occur for ions and atoms in force fields (NA+, CL-, C1\', N-ter); names containing ] ; = | collide with the syntax itself and are not generated']
+               'node names: alphanumeric, also starting with a digit or spelled like a number (01, 1E5, NAN), plus names with + - \' as they occur for ions and atoms in force fields (NA+, CL-, C1\', N-ter); names containing ] ; = | collide with the syntax itself and are not generated']
 MECHANISMS = [('cgsmiles.write_cgsmiles', 'write_graph'), ('cgsmiles.read_cgsmiles', 'read_cgsmiles')]
 FINDING_FEATURES = {}
 _OLD = {'writer.ring_bond_order_not_written': 'nonsingle_ring_edge',
                     'writer.branch_bond_symbol_inside_parenthesis': 'nonsingle_branch_edge'}
 EXHAUSTIVE = {'quick': False, 'thorough': True}
-NAMES = ['A', 'B', 'PEO', 'TC5', 'X1', '2VP', 'NA+', 'CL-', "C1'", 'N-ter']
+NAMES = ['A', 'B', 'PEO', 'TC5', 'X1', '2VP', 'NA+', 'CL-', "C1'", 'N-ter', '01', '1E5', 'NAN', '007']
 SIZES = {'quick': dict(relabel=1, rand_assign=2, rand=600, max_n=30), 'thorough': dict(relabel=3, rand_assign=8, rand=20000, max_n=60)}
 
 
